@@ -80,7 +80,9 @@ class Encoder:
                "eng": sorted({self.engid(k, v) for k, v in ev["eng"]}),
                "folder": int(re.sub(r"\D", "", ev["folder"]) or -1),
                "exe_ok": ev["exe_dirs"] == [ev["folder"]] and ev["folder"] == f"worker{ev['pin']}",
-               "fps": [self.fpid(f) for f in ev["fp_move"] + ev["fp_eng"]],
+               # per picked ensemble: its move stream, then the engine stream spawned from it (the order they are created in)
+               "fps": [self.fpid(f) for pair in zip(ev["fp_move"], ev["fp_eng"]) for f in pair] if len(ev["fp_move"]) == len(ev["fp_eng"])
+               else [self.fpid(f) for f in ev["fp_move"] + ev["fp_eng"]],
                "fpmain": self.fpid(ev["fp_main"]),
                "gens_distinct": bool(ev["ens_objs_distinct"]),
                "c1": -1, "p1": {"den": 0, "cells": [], "skipped": True}}
